@@ -439,12 +439,16 @@ def run(spec):
                         sch['rc'] = {'_default': r0, '_updater': rupd}
                     # a dictionary-valued variable reached through a port of its own: setting it to {} empties it
                     sch['rd'] = {'_default': {'a': 1}, '_updater': 'set'}
+                    # a dictionary-valued variable with the merge updater reached through two ports: one update is a
+                    # plain dictionary (merged), the other names its own updater (set) - applied in port order
+                    sch['ma'] = {'_default': {'a': 1}, '_updater': 'merge'}
+                    sch['mb'] = {'_default': {'a': 1}, '_updater': 'merge'}
                     return sch
 
                 def next_update(self, timestep, states):
                     if self.parameters.get('done'):
                         return {}
-                    out = dict(update, ra=ra, rb=rb, rd={})
+                    out = dict(update, ra=ra, rb=rb, rd={}, ma={'y': 20}, mb={'_updater': 'set', '_value': {'x': 10}})
                     if third:
                         out['rc'] = {'_updater': 'set', '_value': 100}
                     return out
@@ -452,6 +456,10 @@ def run(spec):
             topo = {k: (k,) for k in schema}
             topo['ra'] = topo['rb'] = ('rootv',)
             topo['rd'] = ('rootd',)
+            mfirst = len(spec['batch']) % 4 < 2
+            for port in (('ma', 'mb') if mfirst else ('mb', 'ma')):
+                topo[port] = ('rootm',)
+            mexp = {'x': 10} if mfirst else {'x': 10, 'y': 20}
             if third:
                 topo['rc'] = ('rootv',)
                 rexp = 100
@@ -467,7 +475,11 @@ def run(spec):
                     lambda: ('the explicit _multi_update list a port returned was changed by the engine', ra_before, ra))
             V.check('engine_value', after['rootd'] == {},
                     lambda: ('dictionary-valued variable (updater set) updated with {}: holds %r' % (after['rootd'],)))
-            after = {k: v for k, v in after.items() if k not in ('rootv', 'rootd')}
+            V.check('engine_value', after['rootm'] == mexp,
+                    lambda: ('dictionary-valued variable {"a": 1} (updater merge) with the updates {"y": 20} and {"_updater": "set", '
+                             '"_value": {"x": 10}} in one batch (%s first): holds %r, expected %r' % (
+                                 'merge' if mfirst else 'set', after['rootm'], mexp)))
+            after = {k: v for k, v in after.items() if k not in ('rootv', 'rootd', 'rootm')}
         for p, var in var_of.items():
             got = val(after, p)
             exp = model_state[p]
